@@ -169,7 +169,7 @@ func build(tr *vrt.Tracer, rng *rand.Rand, rs []rtrDesc, hs []hostDesc) *world {
 			return true
 		})
 	}
-	for _, h := range hs {
+	for i, h := range hs {
 		var ips []string
 		for _, x := range h.IPs {
 			ips = append(ips, decIP(x).String())
@@ -182,6 +182,21 @@ func build(tr *vrt.Tracer, rng *rand.Rand, rs []rtrDesc, hs []hostDesc) *world {
 			panic(err)
 		}
 		w.nets[h.ID] = nw
+		if len(h.IPs) == 0 { // automatically assigned address: whatever the router handed out
+			ifc, err := nw.InterfaceByName("eth0")
+			if err != nil {
+				panic(err)
+			}
+			addrs, _ := ifc.Addrs()
+			for _, a := range addrs {
+				if ipn, ok := a.(*net.IPNet); ok {
+					hs[i].IPs = append(hs[i].IPs, encIP(ipn.IP))
+				}
+			}
+			if len(hs[i].IPs) == 0 {
+				panic("verif: host without an address")
+			}
+		}
 	}
 	w.root = rs[0].ID
 	if err := w.routers[rs[0].ID].Start(); err != nil {
@@ -314,7 +329,7 @@ func topologies(rng *rand.Rand, perm []int, draw *int) [][2]any {
 	}
 	var out [][2]any
 	// flat
-	out = append(out, [2]any{[]rtrDesc{root}, []hostDesc{{1, 1, []int{21}}, {2, 1, []int{22, 23}}, {3, 1, []int{24}}}})
+	out = append(out, [2]any{[]rtrDesc{root}, []hostDesc{{1, 1, []int{21}}, {2, 1, []int{22, 23}}, {3, 1, []int{}}}})
 	// one NAT (two WAN addresses half of the time)
 	wan := []int{10}
 	if (*draw/4)%2 == 0 {
@@ -322,7 +337,7 @@ func topologies(rng *rand.Rand, perm []int, draw *int) [][2]any {
 	}
 	out = append(out, [2]any{
 		[]rtrDesc{root, lan(2, 1, 1, wan)},
-		[]hostDesc{{1, 2, []int{1002}}, {2, 2, []int{1003}}, {3, 1, []int{21}}, {4, 1, []int{22}}},
+		[]hostDesc{{1, 2, []int{1002}}, {2, 2, []int{}}, {3, 1, []int{21}}, {4, 1, []int{22}}},
 	})
 	// nested to depth 3
 	out = append(out, [2]any{
@@ -331,10 +346,11 @@ func topologies(rng *rand.Rand, perm []int, draw *int) [][2]any {
 	})
 	// 1:1 NAT with two pairs and one unpaired host
 	c, lo, hi := lanCIDR(1)
-	one := rtrDesc{ID: 2, Parent: 1, Lo: lo, Hi: hi, Wan: []int{11, 12}, Mode: "1to1", MapB: "ind", FiltB: "ind", Pairs: [][2]int{{1005, 11}, {1006, 12}}, cidr: c}
+	one := rtrDesc{ID: 2, Parent: 1, Lo: lo, Hi: hi, Wan: []int{11, 12}, Mode: "1to1", MapB: "ind", FiltB: "ind", Pairs: [][2]int{{1001, 11}, {1006, 12}}, cidr: c}
 	out = append(out, [2]any{
 		[]rtrDesc{root, one},
-		[]hostDesc{{1, 2, []int{1005}}, {2, 2, []int{1006}}, {3, 2, []int{1007}}, {4, 1, []int{21}}, {5, 1, []int{22}}},
+		// the first host takes the first automatic address of the LAN (192.168.1.1), which is paired
+		[]hostDesc{{1, 2, []int{}}, {2, 2, []int{1006}}, {3, 2, []int{1007}}, {4, 1, []int{21}}, {5, 1, []int{22}}},
 	})
 
 	return out
